@@ -23,6 +23,8 @@ OBLIGATIONS = [
     (P + "parseTpl_param", "lit{n}rest parses to parts [lit, …] index n"),
     (P + "parseTpl_errors", "{} => emptyIndex, {0} => zeroIndex, unclosed/stray braces => errors, for all surrounding text without braces"),
     (P + "writeTpl_parse_roundtrip", "instantiating a parsed template substitutes exactly the parameters: parse(a{1}b{2}c) applied to [x,y] = a x b y c, for all brace-free a b c and all x y"),
+    (P + "mapper_constants_pinned", "Gen facts of url_mapper: forbidden key characters / ; , and keys . .. ; braces; digit test"),
+    (P + "valid_key_addressable", "every key accepted by assign(key,url) is read by map as exactly that key of the addressed mapper (no navigation, no keywords)"),
     (P + "parseTpl_keyword_roundtrip", "a{key}b parses to a keyword placeholder; instantiation inserts the call's keyword parameter, else the set_value helper, else nothing"),
     (P + "mapper_dispatch_consistent", "Consistent cfg => route (map key params) reaches the handler of key with exactly params, any depth"),
 ]
@@ -674,6 +676,16 @@ def main():
                 bad.append((k, "implementation deviates from Spec (first whole-string match in registration order)"))
         if rcj != 0 or len(jout) != len(jidx):
             c.broke("judge run", jerr)
+        # T cases (valid_key_addressable on the implementation): a key that url_mapper::assign(key,url) accepted must be
+        # found again by url_mapper::map with that very key (NUL-free keys; map takes a C string)
+        nt = 0
+        for k, cs in enumerate(full):
+            w = cs.split()
+            if w[0] == "T" and w[1] == "0" and k < len(out_i) and out_i[k].startswith("ok ") and "00" not in [w[2][i:i + 2] for i in range(0, len(w[2]), 2)]:
+                nt += 1
+                if "err:keyNotFound" in out_i[k] or "err:notChild" in out_i[k] or "err:noParent" in out_i[k]:
+                    bad.append((k, "a key accepted by url_mapper::assign is not addressable by url_mapper::map"))
+        c.extra_cov["accepted_keys_checked_addressable"] = nt
         # R cases: the hypothesis of mapper_dispatch_consistent (`Consistent`, decidable) is evaluated in Lean on the recorded
         # engine answers; where it holds the implementation must have mapped to root++u and run the key's handler with the parameters
         ridx = [k for k, cs in enumerate(full) if cs in exp_full and k < len(out_i)]
